@@ -73,6 +73,9 @@ type Program struct {
 	reach      map[*types.Func]map[*types.Func]bool
 	renames    []string
 	unresolved []string
+	refKeys    map[string]bool
+	refKeyOf   map[string]string
+	refSkips   map[string][]string
 	litKeys    []litKeyName
 	inlined    map[string]string // "pkg|recv|name" of a vanished function -> key of the only caller it had
 }
